@@ -14,7 +14,31 @@ bytes_of_int = Function('bytes_of_int', IntSort(), IntSort(), IntSort(), Bytes) 
 int_of_bytes = Function('int_of_bytes', Bytes, IntSort(), IntSort())              # int.from_bytes(b, little?)
 
 
+# esc_run(t, e, i): length of the run of characters e of t that ends at index i; defined by the recursion
+#   esc_run(t, e, i) = 1 + esc_run(t, e, i - 1) if 0 <= i < len(t) and t[i] == e else 0
+# and handed to the solver as an uninterpreted function plus instances of that equation (see contracts/wrappers.py ClosingQuote)
+esc_run = Function('esc_run', StringSort(), StringSort(), IntSort(), IntSort())
+
+
+def esc_run_def(t, e, i):
+    return esc_run(t, e, i) == If(And(i >= 0, i < Length(t), z3.SubString(t, i, 1) == e), 1 + esc_run(t, e, i - 1), 0)
+
+
 def method(eng, p, o, name, args, kws):
+    if name == 'rstrip' and isinstance(o, (str, SStr)) and len(args) == 1 and isinstance(args[0], (str, SStr)) and not kws:
+        # s.rstrip(c) for a ONE-character c: s without the run of c at its end.  The run length is esc_run(s, c, len(s) - 1); its defining
+        # equation is supplied for the last 8 positions (longer runs are left to the uninterpreted function: a refutation that depends on
+        # them does not replay and is dropped by the contracts that use this model, which validate refutations natively)
+        trusted('str.rstrip(c), c one character: removes the maximal run of c at the end')
+        sv = eng.to_str(p, o); c = eng.to_str(p, args[0])
+        if isinstance(args[0], str) and len(args[0]) != 1:
+            raise Unsupported('rstrip with a set of several characters')
+        eng.oblige(p, 'rstrip.one_character', Length(c) == 1, 'pre')
+        n = Length(sv); k = esc_run(sv, c, n - 1)
+        for d in range(8):
+            p.pc.append(esc_run_def(sv, c, n - 1 - d))
+        p.pc.append(And(k >= 0, k <= n))
+        return [(p, SStr(z3.SubString(sv, 0, n - k)))]
     if name == 'format':
         return [(p, SStr(fresh('formatted', StringSort())))]
     if name == 'split' and isinstance(o, (str, SStr)):
